@@ -254,11 +254,19 @@ func buildType(t *tdesc) reflect.Type {
 	return buildTypeHook(t)
 }
 
+func sign(h int) int {
+	if h < 0 {
+		return -1
+	}
+	return 1
+}
+
 type valCfg struct {
-	weirdZones  bool
-	invalidUTF8 bool
-	nonFinite   bool
-	nils        bool
+	numericZones bool
+	weirdZones   bool
+	invalidUTF8  bool
+	nonFinite    bool
+	nils         bool
 }
 
 func genGoValue(r *rand.Rand, vc *valCfg, t reflect.Type, depth int) reflect.Value {
@@ -273,6 +281,10 @@ func genGoValue(r *rand.Rand, vc *valCfg, t reflect.Type, depth int) reflect.Val
 	case timeType:
 		secs := []int64{0, 1, -1, 951782400, 253402300799, -62135596800, math.MaxInt32, 1<<32 + 123}[r.IntN(8)]
 		tm := time.Unix(secs, int64(r.IntN(2))*int64(r.IntN(1e9))).UTC()
+		if vc.numericZones && r.IntN(3) == 0 {
+			h := []int{23, -23, 14, -12, 0, 1}[r.IntN(6)]
+			tm = tm.In(time.FixedZone("", h*3600+[]int{0, 1800, 3540, -1800}[r.IntN(4)]*sign(h)))
+		}
 		if vc.weirdZones && r.IntN(3) == 0 {
 			names := []string{"A\"B", "back\\slash", "nl\n", "\xff", "<Z>", "MST", ""}
 			tm = tm.In(time.FixedZone(names[r.IntN(len(names))], (r.IntN(27)-13)*3600+r.IntN(2)*1800))
